@@ -386,6 +386,15 @@ fn main() {
         checks::check_shorthand(t, *is_type, *reject, rep);
     });
     rep.merge(r);
+    let shu = {
+        let pre = |id: u32| coll.id_preimages.iter().find(|(_, i)| *i == id).map(|(s, _)| (quote_candid(s), id)).unwrap();
+        checks::shorthand_universe(&[pre(0), pre(1), ("a".to_string(), 97), ("\"a\"".to_string(), 97), pre(u32::MAX)])
+    };
+    let r = ctx.par_range("5a-text-parsers:all field lists of <= 3 positional / numeric / named fields", shu.len() as u64, 64, || (), |_, i, rep| {
+        let (t, is_type, ids) = &shu[i as usize];
+        checks::check_shorthand_ids(t, *is_type, ids, rep);
+    });
+    rep.merge(r);
 
     // ---- part 5b: macros
     let pc = macros::pair_cases();
